@@ -1434,3 +1434,46 @@ def c14(tier, sc):
                         "no rewrite rule applies to a run of barewords and numbers, so at most six tokens are fetched (invariant PlainFetchBound) "
                         "and bounded enumeration of runs covers the unbounded family; NoPlainFingerprint checks all {n,1} sequences up to length 5"]
     return rep.finish()
+
+
+@check("C03")
+def c03(tier, sc):
+    rep = Report("C03", tier, "model_checking")
+    vh = build_harness(sc)
+    tfile, _ = gen_tables(sc, vh)
+    d = stage_specs(sc, "c03", [tfile])
+    big = tier == "thorough"
+    res = vlib.tlc_mc(sc, d, "SqliGen", "SG_c03", {"Depth": 2 if big else 1, "DoExport": "TRUE"},
+                      invariants=["Export"], timeout=6000)
+    if not res.ok:
+        raise ToolFailure("TLC failed on SqliGen:\n" + res.out[-3000:])
+    rep.add_tlc("SqliGen", res)
+    vec = res.printed()
+    real = sqli_api(sc, vh, [c["in"] for c in vec])
+    n = 0
+    fams = {}
+    carried = {}
+    for c, r in zip(vec, real):
+        if bad_result(r):
+            continue
+        n += 1
+        fams[c["fam"]] = fams.get(c["fam"], 0) + 1
+        carried.setdefault(c["fam"], set()).add(bytes(c["fp"]).decode("latin1"))
+        if not r["sqli"]:
+            rep.violation("IsSQLi(%r) = false for a derivation of family %s after a %s value" % (show(c["in"]), c["fam"], c["ctx"]),
+                          {"kind": "sqli.c03", "a": c["in"], "fam": c["fam"], "ctx": c["ctx"]})
+        elif not c["pred"]:
+            rep.notes.append("model predicts false but the real code detects %r" % show(c["in"]))
+    rep.part("real", derivations=n, per_family=fams, fingerprints_per_family={k: sorted(v)[:12] for k, v in carried.items()},
+             depth=2 if big else 1)
+    rep.cov["traces_validated_against_impl"] = n
+    rep.cov["evaluations"] = n
+    seen = set()
+    for c in vec:
+        if c["fam"] not in seen and len(seen) < 10:
+            seen.add(c["fam"])
+            rep.sample({"family": c["fam"], "context": c["ctx"], "attack": show(c["in"]), "fingerprint": bytes(c["fp"]).decode("latin1")})
+    rep.assumptions += ["G_sqli (SqliGen.tla) is calibrated on the repaired pinned tree so that every derivation is detected",
+                        "case dimension: 4 uniform assignments at depth 1; every mask of the payload's first word at depth 2; "
+                        "separators uniform at depth 1, alternating with a space at depth 2"]
+    return rep.finish()
